@@ -250,6 +250,42 @@ def db_check_counts(arch):
     return exp
 
 
+def cli_sample(spec, stats, failures):
+    """the CLI path (parse, semantics, two balancing passes, graph, report) on kernels of synthesised instructions"""
+    from lib import cli, entries
+    from osaca.parser import ParserAArch64, ParserX86ATT
+    from osaca.semantics import MachineModel
+
+    for name in spec["models"]:
+        mm = guard(MachineModel, arch=name, what="MachineModel")
+        isa = mm.get_ISA()
+        parser = ParserX86ATT() if isa == "x86" else ParserAArch64()
+        forms = [(n, i, f) for n, fs in mm._data["instruction_forms_dict"].items() for i, f in enumerate(fs)]
+        step = spec["step"]
+        batch = []
+        for k in range(spec["offset"] % step, len(forms), step):
+            n, i, f = forms[k]
+            try:
+                text = entries.entry_text(isa, n, f.operands, k % 3)
+                if parser.parse_line(text, 1).mnemonic is None:
+                    continue
+            except Exception:
+                continue
+            batch.append((n, i, text))
+        for j in range(0, len(batch), 4):
+            grp = batch[j:j + 4]
+            case = {"model": name, "cli_kernel": [t for _, _, t in grp]}
+            try:
+                guard(cli.run_inprocess, ["--arch", name, "--ignore-unknown", "--lcd-timeout", "5"],
+                      "\n".join(case["cli_kernel"]) + "\n", what="osaca --arch %s on %r" % (name, case["cli_kernel"]))
+                stats.record(case, {"nontrivial": True, "classes": ["cli-path"], "sample": case})
+            except Violation as v:
+                stats.evaluations += 1
+                v.bucket = name + ":cli:" + v.bucket
+                if v.bucket not in failures:
+                    failures[v.bucket] = failure_record(ID, case, v)
+
+
 def plan(tier, seed):
     shards = []
     big = {"icl": 4, "ivb": 3, "snb": 2, "hsw": 2, "icx": 2, "zen2": 2}
@@ -257,6 +293,10 @@ def plan(tier, seed):
         parts = big.get(a, 1)
         for i in range(parts):
             shards.append({"kind": "model", "model": a, "part": i, "parts": parts})
+    step = 80 if tier == "quick" else 1
+    for g in ([["zen1", "spr", "tx2", "n1"], ["zen4", "hsw", "a64fx", "v2"], ["zen2", "zen3", "m1", "a72"],
+               ["icx", "snb", "tsv110"], ["icl"], ["ivb"]]):
+        shards.append({"kind": "cli", "models": g, "step": step, "offset": seed})
     for a in (["zen1", "tx2", "n1"] if tier == "quick" else ["zen1", "tx2", "n1", "a64fx", "spr", "zen4", "m1",
                                                               "v2", "tsv110", "a72", "zen3"]):
         shards.append({"kind": "dbcheck", "arch": a})
@@ -266,6 +306,9 @@ def plan(tier, seed):
 def run_shard(spec):
     stats = Stats()
     failures = {}
+    if spec["kind"] == "cli":
+        cli_sample(spec, stats, failures)
+        return {"stats": stats.to_dict(), "failures": list(failures.values()), "exhaustive": spec["step"] == 1}
     if spec["kind"] == "dbcheck":
         case = {"dbcheck": spec["arch"]}
         try:
@@ -287,6 +330,11 @@ def replay(case):
     stats, failures = Stats(), {}
     if "dbcheck" in case:
         db_check_counts(case["dbcheck"])
+        return
+    if "cli_kernel" in case:
+        from lib import cli
+        guard(cli.run_inprocess, ["--arch", case["model"], "--ignore-unknown", "--lcd-timeout", "5"],
+              "\n".join(case["cli_kernel"]) + "\n", what="osaca --arch %s" % case["model"])
         return
     raw = plain_yaml(os.path.join(env.REPO, "osaca", "data", case["model"] + ".yml"))
     forms = expand(raw["instruction_forms"])
